@@ -272,6 +272,22 @@ pub fn check_run(prop: &str, root: &Root, depth: u8, k: Option<u64>, r: &SearchR
                 }
             }
         }
+        // the hook stands in front of every send; what it announced must be exactly what arrived on
+        // the channel, in that order (a send that is announced but never made - e.g. compiled out -
+        // would otherwise go unnoticed, because the monitors read the hook's record)
+        if r.panic.is_none() {
+            let announced: Vec<Fields> = r.report.events.iter().filter_map(|e| if let crate::verif::Ev::Send(b, _) = e { Some(fields_of(b)) } else { None }).collect();
+            let arrived: Vec<Fields> = r.sent.iter().map(fields_of).collect();
+            if announced != arrived {
+                acc.violation(
+                    format!("C07|channel|{}", tag),
+                    format!("{}: the search announced {} move(s) to its hook but {} arrived on the channel to the I/O thread (expiry {:?}, depth limit {}): announced [{}], arrived [{}]", root.hist.end.to_fen(), announced.len(), arrived.len(), k, depth,
+                        r.report.events.iter().filter_map(|e| if let crate::verif::Ev::Send(b, _) = e { mv_of(b).ok().map(|m| m.to_string()) } else { None }).collect::<Vec<_>>().join(" "),
+                        r.sent.iter().filter_map(|b| mv_of(b).ok().map(|m| m.to_string())).collect::<Vec<_>>().join(" ")),
+                    case.clone(),
+                );
+            }
+        }
         let n_send = events.iter().filter(|e| matches!(e, NEv::Send { .. })).count();
         let n_fb = events.iter().filter(|e| matches!(e, NEv::Send { fallback: true, .. })).count();
         if !root.legal.is_empty() && n_send == 0 && r.panic.is_none() {
